@@ -76,8 +76,8 @@ def mk_storage(D, name, node, price=None, eff=None, costs=True, inflow=True, wac
     s, e = window(tg, win) if win is not None else (None, None)
     a = eao.assets.Storage(name, nodes=node, size=size, cap_in=D(name + '_capin', lo=0), cap_out=D(name + '_capout', lo=0),
                            start_level=start, end_level=end,
-                           cost_in=D(name + '_cin', lo=0) if costs is True else 0., cost_out=D(name + '_cout', lo=0) if costs is True else 0.,
-                           cost_store=D(name + '_cstore', lo=0) if costs else 0.,
+                           cost_in=D(name + '_cin', lo=0) if costs in (True, 'inout') else 0., cost_out=D(name + '_cout', lo=0) if costs in (True, 'inout') else 0.,
+                           cost_store=D(name + '_cstore', lo=0) if costs in (True, 'store') else 0.,
                            eff_in=(1. if eff is None else D.coef(name + '_eff', eff, lo_strict=0, hi=1)),
                            inflow=D(name + '_inflow', lo=0) if inflow else 0., price=price, wacc=wacc,
                            start=s, end=e, **kw)
@@ -178,6 +178,10 @@ def mk_plant(D, name, nds, T, price='p', fuel=True, heat=False, mr=0, md=0, tar=
     args = dict(name=name, nodes=nds, price=price, min_cap=mn, max_cap=mx, min_runtime=mr, min_downtime=md,
                 time_already_running=tar, time_already_off=tao,
                 start_costs=D(name + '_sc', lo=0) if start_costs else 0., running_costs=D(name + '_rc', lo=0))
+    if start_costs == 'dict':
+        # interval data covering only part of the horizon: uncovered steps take the documented default 0
+        args['start_costs'] = {'start': [tstep(tg, 1)], 'end': [tstep(tg, 2)], 'values': [D(name + '_sc', lo=0)]}
+        args['running_costs'] = {'start': [tstep(tg, 0)], 'end': [tstep(tg, 1)], 'values': [D(name + '_rc', lo=0)]}
     if ramp:
         args['ramp'] = D(name + '_ramp', lo_strict=0)
     if last_dispatch is not None:
@@ -189,6 +193,8 @@ def mk_plant(D, name, nds, T, price='p', fuel=True, heat=False, mr=0, md=0, tar=
     if fuel:
         args.update(start_fuel=D(name + '_sf', lo=0), fuel_efficiency=D.coef(name + '_fe', 0.5, lo_strict=0),
                     consumption_if_on=D(name + '_cio', lo=0))
+        if start_costs == 'dict':
+            args['consumption_if_on'] = {'start': [tstep(tg, 1)], 'end': [tstep(tg, 3)], 'values': [D(name + '_cio', lo=0)]}
     if win is not None:
         args['start'], args['end'] = window(tg, win)
     args.update(kw)
